@@ -14,7 +14,6 @@ import (
 	"testing"
 	"time"
 	"unicode/utf8"
-	"unsafe"
 
 	"github.com/hashicorp/eventlogger"
 	"pgregory.net/rapid"
@@ -370,7 +369,11 @@ func TestC14TableConcurrent(t *testing.T) {
 		lastFor := make([]map[string][]byte, g)
 		var wg sync.WaitGroup
 		var bad sync.Map
-		all := make([][]byte, 0, g*per)
+		type kv struct {
+			key string
+			val []byte
+		}
+		all := make([]kv, 0, g*per)
 		var allMu sync.Mutex
 		for i := 0; i < g; i++ {
 			lastFor[i] = map[string][]byte{}
@@ -385,7 +388,9 @@ func TestC14TableConcurrent(t *testing.T) {
 							allMu.Lock()
 							found := false
 							for _, w := range all {
-								if len(w) > 0 && unsafe.SliceData(w) == unsafe.SliceData(got) && len(w) == len(got) {
+								// by content (values are unique and name their key's parity): whether the table keeps
+								// the caller's slice or a private copy is not part of the statement
+								if w.key == key && bytes.Equal(w.val, got) {
 									found = true
 									break
 								}
@@ -399,7 +404,7 @@ func TestC14TableConcurrent(t *testing.T) {
 					}
 					v := []byte(fmt.Sprintf("g%d-op%d", i, k))
 					allMu.Lock()
-					all = append(all, v)
+					all = append(all, kv{key, append([]byte(nil), v...)})
 					allMu.Unlock()
 					written[i] = append(written[i], v)
 					ev.FormattedAs(key, v)
